@@ -40,10 +40,14 @@ SOURCES = ["include/etl/_type_traits", "include/etl/_concepts", "include/etl/_li
 CXXSTD = ["-std=c++2b", "-O0", "-w"]
 
 RULE = ("(c) every type of the Lean-enumerated zoo of depth 0 (31 base types x 4 cv; eight enumerations with underlying types of 1, 2, 4 and 8 bytes) and a seeded sample (thorough: all) of "
-        "depths 1-2 plus a sample of depth 3 and random deeper terms: 55 structural traits/concepts per type; is_same/same_as "
-        "over all ordered pairs of a near-miss list; (d) 60 intrinsic-backed traits/concepts over a 50-class zoo, its cv/ref/"
-        "pointer/array variants and a zoo sample, 22 relational traits/concepts + common_type/common_reference/invoke_result "
-        "over all ordered pairs of a relation list; (b) all 32 numeric_limits members x 19 arithmetic types x 4 cv; "
+        "depths 1-2 plus a sample of depth 3 and random deeper terms: 55 structural traits/concepts per type, each trait in "
+        "both forms (X_v<T> / X_t<T> and the class template X<T>::value / ::type); is_same/same_as "
+        "over all ordered pairs of a near-miss list; where model and spec call make_signed/make_unsigned ill-formed a seeded "
+        "sample of etl::make_(un)signed<T>::type is compiled alone and must be rejected; (d) 60 intrinsic-backed "
+        "traits/concepts (the traits in both forms) over a 50-class zoo, its cv/ref/"
+        "pointer/array variants and a zoo sample, 22 relational traits/concepts + common_type of 1, 2 and 3 types/common_reference/invoke_result "
+        "over all ordered pairs of a relation list; the definitions of all traits are re-extracted from the preprocessed headers "
+        "(g++ and clang++ branches) and the table theorems re-checked; (b) all 32 numeric_limits members x 19 arithmetic types x 4 cv; "
         "(a) ratio<n,d> over a small grid and near-overflow values, the four arithmetic aliases and six comparisons over "
         "all ordered pairs of a small ratio list, seeded near-overflow pairs and six targeted families (common denominator with a "
         "cancelling numerator, Bezout-type cancellation n1/a - n2/b = 1/(ab) with products near 2^93, large integer parts of "
@@ -55,18 +59,27 @@ RULE = ("(c) every type of the Lean-enumerated zoo of depth 0 (31 base types x 4
 ASSUMPTIONS = ["libstdc++ 12 <type_traits>, <concepts>, <limits>, <ratio> are the reference (R2 validates the Lean spec against them)",
                "x86-64 Linux data model (LP64; char and wchar_t signed) for sizes, signedness and underlying types",
                "compiler intrinsics (__is_class, __is_enum, __is_union, __underlying_type, __is_trivially_*, ...) implement "
-               "their documented meaning; part (d) has no model and is differential testing only"]
+               "their documented meaning: for part (d) the theorems say WHICH builtin is asked WHAT (tie), the answer of the "
+               "builtin is compared with libstdc++ (differential testing), it has no model"]
 TRUSTED = ["hand model Tetl/C15/Model.lean tied to the source by the compile-time correspondence matrix (R1) on every run",
            "spec Tetl/C15/Spec.lean validated against libstdc++ (R2) on every run",
-           "type encoder `Enc` of harness/c15.cpp (partial specialisations independent of etl and std)"]
+           "type encoder `Enc` of harness/c15.cpp (partial specialisations independent of etl and std)",
+           "extractors gen/c15_defs.py (trait definitions) and gen/c15_limits.py (numeric_limits members) over the headers as "
+           "preprocessed by the compiler under test: tokeniser + recursive descent; what they do not understand becomes an "
+           "`opaque` node, which no theorem accepts"]
 
 # ------------------------------------------------------------------ manifest text
 CLAIMED = True
 TECHNIQUE = ("Three parts are Lean 4 proofs about a hand model that is tied to the source by a compile-time matrix on every "
-             "run: (a) <ratio>, (b) numeric_limits of the integer types, (c) the structural traits/concepts over a C++ type "
-             "grammar (incl. make_signed/make_unsigned/underlying_type).  One part is NOT a proof: (d) about 80 intrinsic-"
-             "backed class traits, relational traits and concepts, common_type/common_reference/invoke_result, the floating-"
-             "point numeric_limits and the logical traits are a differential etl-vs-libstdc++ matrix only")
+             "run: (a) <ratio>, (b) numeric_limits of the integer types - here additionally the members AS THE HEADER SPELLS "
+             "THEM are extracted from the preprocessed header on every run and evaluated by a small C-expression semantics -, "
+             "(c) the structural traits/concepts over a C++ type grammar (incl. make_signed/make_unsigned/underlying_type).  "
+             "Part (d) - about 80 intrinsic-backed class traits, relational traits and concepts, common_type/common_reference/"
+             "invoke_result - is tied + observed: the DEFINITION of every trait (which builtin with which arguments, the formula "
+             "of a composite trait, the argument pattern of the copy/move families, agreement of the _v and the class-template "
+             "form) is extracted from the preprocessed headers on every run and proved to be the prescribed one by decide over "
+             "the generated table; the ANSWER of the compiler builtins is a differential etl-vs-libstdc++ matrix only, as are the "
+             "floating-point numeric_limits and the logical traits")
 LEVEL_TEXT = ("PROVED in Lean 4 for all inputs (coverage.theorems): (c) each of 47 structural traits/concepts, as tetl computes "
               "it (partial specialisations, SFINAE helpers, the not-const-qualifiable test of is_function, the portable "
               "branches of is_scalar/is_object), equals the standard's definition for every well-formed type of a grammar with "
@@ -75,40 +88,76 @@ LEVEL_TEXT = ("PROVED in Lean 4 for all inputs (coverage.theorems): (c) each of 
               "category, reference collapsing, remove_cvref = remove_cv after remove_reference); make_signed/make_unsigned "
               "name the type of [meta.trans.sign] (corresponding type; smallest rank of equal size for enumerations and "
               "character types; cv kept) and are ill-formed for the same types, underlying_type is the fixed underlying type; "
-              "(b) the integer numeric_limits members equal 2^digits-1, -2^digits, and digits*3/10 = floor(digits*log10 2) for "
-              "every width below 103 bits; (a) ratio, after three fix: commits, against Mathlib's rational numbers Q: "
+              "for the 18 traits/concepts that are formulas over other traits (is_arithmetic, is_fundamental, is_compound, "
+              "is_scalar, is_object, is_function, is_void, is_integral ..., signed_integral ...) the formula EXTRACTED from the "
+              "header, in both forms, evaluates to the hand model for every type (composite_formulas); "
+              "(b) numeric_limits<integer>: is_signed, digits, digits10, min, max, lowest, is_modulo AS SPELLED in the header "
+              "(<climits> macros as the preprocessor expands them, literals, casts, the shift expression of "
+              "detail::integer_numeric_limits with integral promotion) evaluate without undefined behaviour to 2^digits-1, "
+              "-2^digits / 0, floor(digits*log10 2) ... for each of the 16 integer types, the template for every width "
+              "8/16/32/64 and both signednesses, and equal the hand model member by member (traps included); digits*3/10 = "
+              "floor(digits*log10 2) for every width below 103 bits; (a) ratio, after three fix: commits, against Mathlib's "
+              "rational numbers Q: "
               "ratio<n,d> is n/d in lowest terms with a positive denominator for all admissible template arguments and ill-formed "
               "for the others (zero denominator, INTMAX_MIN); ratio_add/subtract/multiply/divide are the canonical "
               "specialisation of the exact sum/difference/product/quotient in Q exactly when numerator and denominator of "
               "that number fit intmax_t - no intermediate of the gcd-first products, of detail::ratio_add_impl or of "
               "detail::ratio_less_impl overflows - and ill-formed otherwise (or when the divisor is zero); ratio_equal/"
               "not_equal/less/less_equal/greater/greater_equal are =, !=, <, <=, >, >= of Q for all operands (the "
-              "continued-fraction loop terminates within den+1 iterations).  TIED TO THE SOURCE on every run by a generated "
+              "continued-fraction loop terminates within den+1 iterations).  (d) TIED, by decide over the table of definitions "
+              "extracted from the preprocessed headers on every run: each of 19 intrinsic-backed traits (is_trivial, "
+              "is_trivially_copyable, is_standard_layout, is_empty, is_polymorphic, is_abstract, is_final, is_aggregate, "
+              "has_virtual_destructor, has_unique_object_representations, is_(trivially_|nothrow_)constructible, "
+              "is_(trivially_)assignable, is_trivially_destructible, is_enum/is_class/is_union) is, in both forms, the builtin "
+              "of its own name applied to all its template arguments - except is_trivially_constructible, which drops Args... "
+              "(known finding; _partial + _counterexample) -, the same for the clang-only #if branches, no other builtin is "
+              "called anywhere, every _v variable agrees with its class template, and the 17 default/copy/move/swappable "
+              "family members pass exactly the argument types [meta.unary.prop] names for every well-formed type.  TIED TO THE "
+              "SOURCE on every run by a generated "
               "compile-time matrix (etl = model, std = spec, etl = spec) over a Lean-enumerated zoo of 1.5e3 (quick) / 1e4 "
-              "(thorough) types, all arithmetic types and a ratio grid incl. near-overflow values and targeted families; "
-              "instantiations that model and spec call ill-formed are compiled alone on a sample and must be rejected.  "
-              "NOT PROVED, differential matrix against libstdc++ only (coverage.unproved_observed): about 80 intrinsic-"
-              "backed class traits and relational traits/concepts over a class zoo, floating-point numeric_limits, "
-              "conjunction/disjunction/negation.")
+              "(thorough) types - every trait in both forms -, all arithmetic types and a ratio grid incl. near-overflow values "
+              "and targeted families; "
+              "instantiations that model and spec call ill-formed (ratio, make_signed/make_unsigned) are compiled alone on a "
+              "sample and must be rejected.  "
+              "NOT PROVED, differential matrix against libstdc++ only (coverage.unproved_observed): the VALUE of the about 80 "
+              "intrinsic-backed class traits and relational traits/concepts over a class zoo (what the compiler builtins and "
+              "the SFINAE probes answer), floating-point numeric_limits, conjunction/disjunction/negation.")
 LEVEL_NOTE = ("Trusted: Lean kernel + propext/Classical.choice/Quot.sound; fidelity of the hand model outside the explored "
-              "types; g++ 12 front end and intrinsics; libstdc++ as oracle.  Part (d) (coverage.unproved_observed) is "
-              "differential testing, not proof.  Floating-point numeric_limits members are compared with std only.  The "
-              "integer numeric_limits min/max/lowest are modelled as closed forms of (bits, signedness); the header's "
-              "*_MAX macros and shift expressions are tied to them by the matrix over every arithmetic type only.")
-CORRESPONDENCE_ONLY = ["add_cv, integer numeric_limits::digits10 of the literal specialisations beyond 8-bit bytes",
+              "types; the extractors gen/c15_defs.py / gen/c15_limits.py; g++ 12 front end and intrinsics; libstdc++ as "
+              "oracle.  Part (d) (coverage.unproved_observed): the theorems pin the definitions (which builtin, which "
+              "arguments, which formula), not the answers - those are differential testing, not proof; traits defined by "
+              "SFINAE probes or partial specialisations the extractor does not read (is_convertible, is_base_of, "
+              "is_destructible, is_nothrow_*, is_swappable_with, invoke_result, common_type, the concepts with "
+              "requires-expressions) are observed only.  The clang++ #if branches are tied but never executed.  "
+              "Floating-point numeric_limits members are compared with std only; of the integer members is_specialized, "
+              "is_integer, is_exact, radix, is_bounded and the zero-valued floating-point members are compared only.  "
+              "numeric_limits<bool>::traps differs from libstdc++ (known finding, implementation-defined member).")
+CORRESPONDENCE_ONLY = ["add_cv",
+                       "the 14 traits defined by partial specialisation (is_const, is_volatile, is_reference, is_lvalue_reference, "
+                       "is_rvalue_reference, is_array, is_bounded_array, is_unbounded_array, is_pointer, is_member_pointer, "
+                       "is_member_function_pointer, is_signed, is_unsigned, is_scoped_enum) and the type transformations: the "
+                       "specialisation patterns are hand-modelled, not extracted (their _v forms and the remove_cv_t wrapping of "
+                       "the helpers are: forwarding_vars, helper_traits_strip_cv)",
                        "numeric_limits<floating-point>::* (compared with std only)",
-                       "numeric_limits<integer>: is_specialized, is_integer, is_exact, radix, is_bounded, traps, the "
-                       "zero-valued floating-point members, and min/max/lowest as the header spells them (macros, shifts)",
+                       "numeric_limits<integer>: is_specialized, is_integer, is_exact, radix, is_bounded and the "
+                       "zero-valued floating-point members (compared with std and with constants of the driver only)",
                        "conjunction, disjunction, negation, integral_constant (fixed row, etl vs std)"]
 UNPROVED_OBSERVED = [
+    "VALUES (the definitions are tied by theorems over the extracted table; what the builtin answers is compared with std only): "
     "is_trivial", "is_trivially_copyable", "is_standard_layout", "is_empty", "is_polymorphic", "is_abstract", "is_final",
-    "is_aggregate", "has_virtual_destructor", "has_unique_object_representations", "alignment_of",
-    "is_(trivially_|nothrow_)?(default_|copy_|move_)?constructible", "is_(trivially_|nothrow_)?(copy_|move_)?assignable",
-    "is_(trivially_|nothrow_)?destructible", "is_(nothrow_)?swappable(_with)?", "is_(nothrow_)?convertible", "is_base_of",
-    "is_invocable", "invoke_result", "common_type", "common_reference",
+    "is_aggregate", "has_virtual_destructor", "has_unique_object_representations",
+    "is_(trivially_|nothrow_)?(default_|copy_|move_)?constructible", "is_(trivially_)?(copy_|move_)?assignable",
+    "is_trivially_destructible",
+    "DEFINITION NOT EXTRACTED (SFINAE probes, noexcept / requires-expressions, partial specialisations), compared with std only: "
+    "alignment_of", "is_nothrow_(copy_|move_)?assignable", "is_(nothrow_)?destructible", "is_(nothrow_)?swappable(_with)?",
+    "is_(nothrow_)?convertible", "is_base_of",
+    "is_invocable", "invoke_result", "common_type (1, 2 and 3 arguments)", "common_reference",
     "concepts: destructible, default_initializable, move_constructible, copy_constructible, movable, copyable, semiregular, "
     "regular, equality_comparable, swappable, convertible_to, derived_from, assignable_from, constructible_from, common_with, "
-    "common_reference_with, invocable"]
+    "common_reference_with, invocable",
+    "never instantiated by the matrix: aligned_storage, aligned_union, conditional, enable_if, void_t, is_invocable_r, "
+    "unwrap_reference, unwrap_ref_decay, the concepts predicate, relation, equivalence_relation, strict_weak_order, "
+    "regular_invocable, boolean_testable, the typedefs of _cstdint/_cstddef, incomplete class types"]
 THEOREMS = {
     "rn": ["Tetl.C15.Props.mkRatio_rat", "Tetl.C15.Props.mkRatio_eq", "Tetl.C15.Props.mkRatio_illformed",
            "Tetl.C15.Props.mkRatio_valid", "Tetl.C15.Props.valid_num_den", "Tetl.C15.Props.reduce_lowest_terms",
@@ -119,13 +168,22 @@ THEOREMS = {
            "Tetl.C15.Props.ratioGreaterEqual_rat", "Tetl.C15.Props.ratioAdd_eq", "Tetl.C15.Props.ratioAdd_illformed",
            "Tetl.C15.Props.ratioSub_eq", "Tetl.C15.Props.ratioSub_illformed", "Tetl.C15.Props.ratioMul_eq",
            "Tetl.C15.Props.ratioMul_illformed", "Tetl.C15.Props.ratioDiv_eq", "Tetl.C15.Props.ratioDiv_illformed"],
-    "lim": ["Tetl.C15.Props.intLimits_eq", "Tetl.C15.Props.intLimits_char_eq", "Tetl.C15.Props.intLimits_bool_char8",
-            "Tetl.C15.Props.digits10_eq_floor_log", "Tetl.C15.Props.digits10_eq_spec"],
+    "lim": ["Tetl.C15.Props.limits_spelled_members_eq", "Tetl.C15.Props.limits_template_eq", "Tetl.C15.Props.limits_model_eq_spelled",
+            "Tetl.C15.Props.limits_table_complete", "Tetl.C15.Props.limits_shifts_representable",
+            "Tetl.C15.Props.intLimits_eq", "Tetl.C15.Props.intLimits_char_eq", "Tetl.C15.Props.intLimits_bool_char8",
+            "Tetl.C15.Props.intLimits_traps_partial", "Tetl.C15.Props.digits10_eq_floor_log", "Tetl.C15.Props.digits10_eq_spec"],
+    "d": ["Tetl.C15.Props.intrinsic_traits_forward_partial", "Tetl.C15.Props.single_builtin_same_name_partial",
+          "Tetl.C15.Props.builtin_inventory_complete", "Tetl.C15.Props.var_and_struct_forms_agree",
+          "Tetl.C15.Props.copy_move_families", "Tetl.C15.Props.intrinsic_traits_forward_clang"],
+    "db": ["Tetl.C15.Props.intrinsic_traits_forward_partial", "Tetl.C15.Props.single_builtin_same_name_partial",
+           "Tetl.C15.Props.var_and_struct_forms_agree"],
     "ut": ["Tetl.C15.Props.exactly_one_primary_category", "Tetl.C15.Props.isFunction_eq", "Tetl.C15.Props.removeCv_eq",
            "Tetl.C15.Props.decay_eq", "Tetl.C15.Props.addPointer_eq", "Tetl.C15.Props.addLvalueReference_eq",
            "Tetl.C15.Props.addRvalueReference_eq", "Tetl.C15.Props.reference_collapsing", "Tetl.C15.Props.isObject_eq",
            "Tetl.C15.Props.isCompound_eq", "Tetl.C15.Props.rank_eq", "Tetl.C15.Props.extent_eq",
-           "Tetl.C15.Props.makeSigned_eq", "Tetl.C15.Props.makeUnsigned_eq", "Tetl.C15.Props.underlyingType_eq"],
+           "Tetl.C15.Props.makeSigned_eq", "Tetl.C15.Props.makeUnsigned_eq", "Tetl.C15.Props.underlyingType_eq",
+           "Tetl.C15.Props.composite_formulas", "Tetl.C15.Props.forwarding_vars", "Tetl.C15.Props.helper_traits_strip_cv",
+           "Tetl.C15.Props.var_and_struct_forms_agree"],
     "bt": ["Tetl.C15.Props.isSame_iff", "Tetl.C15.Props.sameAs_eq"],
 }
 
@@ -415,7 +473,12 @@ def classify_item(line, key, impl, spec, row=None):
                 return "F-C15-is-trivially-constructible-ignores-args"
             return None
         return None
-    return None            # part (a), (b), (c): no known finding (the three ratio findings are fixed)
+    if line.startswith("lim "):
+        kv = dict(t.split("=", 1) for t in line.split(" ")[1:])
+        if kv.get("t") == "bool" and key == "traps" and impl == "0" and spec == "1":
+            return "F-C15-limits-bool-traps"          # implementation-defined member; libstdc++ 1, etl (libc++, MSVC) 0
+        return None
+    return None            # part (a), (c): no known finding (the three ratio findings are fixed)
 
 
 def base_key(k):
